@@ -192,6 +192,9 @@ class Session:
             return out
         for method, target, headers, body, raw in reqs:
             self.requests.append((self.framer is not None, method, target, headers, body, raw))
+            if target == "/pair-setup" and method == "POST":
+                out.append(self.respond(self._pair_setup(body)))
+                continue
             if target == "/pair-verify" and method == "POST":
                 resp, switch = self._pair_verify(body)
                 out.append(self.respond(resp))
@@ -208,6 +211,28 @@ class Session:
                 code, rbody, ctype = res
                 out.append(self.respond(http_response(code, rbody, ctype)))
         return out
+
+    def _pair_setup(self, body):
+        """Pair-setup M1..M6 on this connection (setup code acc.setup_code, fresh SRP salt/secret per attempt)."""
+        tlv = lambda items: http_response(200, tlv8.encode(items), "application/pairing+tlv8")  # noqa: E731
+        try:
+            req = dict(tlv8.decode(body))
+        except tlv8.Malformed:
+            return tlv([(hap.T_STATE, b"\x02"), (hap.T_ERROR, b"\x01")])
+        st = req.get(hap.T_STATE)
+        if st == b"\x01":
+            n = len(getattr(self.acc, "setups", []))
+            self.setup = hap.SetupAccessory(self.acc.ident, getattr(self.acc, "setup_code", "111-22-333"), C.det_bytes(self.acc.seed, f"salt|{n}", 16), int.from_bytes(C.det_bytes(self.acc.seed, f"srp-b|{n}", 32), "big"))
+            self.acc.__dict__.setdefault("setups", []).append(self.setup)
+            return tlv(self.setup.m2())
+        if st == b"\x03" and getattr(self, "setup", None):
+            return tlv(self.setup.handle_m3(req))
+        if st == b"\x05" and getattr(self, "setup", None):
+            items = self.setup.handle_m5(req)
+            if self.setup.m5_ok:
+                self.acc.controllers[self.setup.controller[0]] = self.setup.controller[1]
+            return tlv(items)
+        return tlv([(hap.T_STATE, b"\x02"), (hap.T_ERROR, b"\x01")])
 
     def _pair_verify(self, body):
         tlv = lambda items: http_response(200, tlv8.encode(items), "application/pairing+tlv8")  # noqa: E731
